@@ -57,6 +57,10 @@ func nats(xs []int) string {
 // exactNaN: print NaN payloads bit for bit (C12) instead of the canonical quiet NaN
 var exactNaN = false
 
+// payloadAsIntegers: float payloads are printed as the integers they hold (integer-valued test
+// data: float arithmetic is then exact and the ring models are compared exactly)
+var payloadAsIntegers = false
+
 const qnan32 = "2143289344"
 const qnan64 = "9221120237041090560"
 
@@ -66,6 +70,10 @@ func payload(t tensor.Tensor) []string {
 	var out []string
 	add := func(format string, v interface{}) { out = append(out, fmt.Sprintf(format, v)) }
 	f32 := func(x float32) {
+		if payloadAsIntegers {
+			add("%d", int64(x))
+			return
+		}
 		if x != x && !exactNaN {
 			out = append(out, qnan32)
 		} else {
@@ -73,6 +81,10 @@ func payload(t tensor.Tensor) []string {
 		}
 	}
 	f64 := func(x float64) {
+		if payloadAsIntegers {
+			add("%d", int64(x))
+			return
+		}
 		if x != x && !exactNaN {
 			out = append(out, qnan64)
 		} else {
